@@ -468,7 +468,7 @@ func gen(seed uint64, tier string) {
 	r := vproto.NewRng(seed)
 	nBase, maxOrbit, nMulti, nLine, nBuf := 220, 24, 90, 900, 150
 	if tier == "thorough" {
-		nBase, maxOrbit, nMulti, nLine, nBuf = 1200, 64, 500, 15000, 2500
+		nBase, maxOrbit, nMulti, nLine, nBuf = 1000, 64, 450, 15000, 2500
 	}
 	G := func(g geom.Geom) string { return vproto.GeomToks(g) }
 
@@ -602,6 +602,147 @@ func gen(seed uint64, tier string) {
 			emitPoly("g", q, ss)
 			q, ss = randSpells(sb, false, false)
 			emitPoly("g", q, ss)
+		}
+	}
+
+	// ---- small hole-free polygons (3..6 vertices) under their FULL orbit ----
+	// every start vertex x both directions x closed/unclosed; shapes with an axis-aligned right angle
+	// that are not rectangles (right trapezoids, right triangles, quads with one square corner),
+	// L-shapes, kites, rectangles and random simple polygons; in all eight axis symmetries
+	smallFamily := func() [][]geom.Point {
+		a, b, h := r.Range(2, 7), 0, r.Range(1, 5)
+		b = r.Range(1, a-1)
+		k := r.Range(1, 4)
+		fam := []ring{
+			{pt(0, 0), pt(a, 0), pt(a, h), pt(b, h)},                          // right trapezoid
+			{pt(0, 0), pt(a, 0), pt(a, h), pt(a-b, h+k)},                      // one square corner
+			{pt(0, 0), pt(a, 0), pt(0, h)},                                    // right triangle
+			{pt(0, 0), pt(a, 0), pt(a, h), pt(0, h)},                          // rectangle
+			{pt(0, 0), pt(a+k, 0), pt(a+k, h), pt(a, h), pt(a, h+k), pt(0, h+k)}, // L
+			{pt(0, k), pt(-b, 0), pt(0, -h-k), pt(b, 0)},                      // kite
+			{pt(0, 0), pt(a, 0), pt(a+b, h), pt(a, h+k), pt(0, h+k)},          // house (two square corners)
+		}
+		for try := 0; try < 20 && len(fam) < 9; try++ { // random simple polygons
+			n := r.Range(3, 6)
+			q := make(ring, n)
+			for j := range q {
+				q[j] = pt(r.Range(0, 6), r.Range(0, 6))
+			}
+			if simpleRing(q) {
+				fam = append(fam, q)
+			}
+		}
+		// one of the eight symmetries of the axes and a translation
+		sym, tx, ty := r.Intn(8), float64(r.Range(-9, 9)), float64(r.Range(-9, 9))
+		for _, q := range fam {
+			for j, v := range q {
+				x, y := v.X, v.Y
+				if sym&1 == 1 {
+					x = -x
+				}
+				if sym&2 == 2 {
+					y = -y
+				}
+				if sym&4 == 4 {
+					x, y = y, x
+				}
+				q[j] = geom.Point{X: x + tx, Y: y + ty}
+			}
+		}
+		return fam
+	}
+	nSmall := 3
+	if tier == "thorough" {
+		nSmall = 40
+	}
+	for i := 0; i < nSmall; i++ {
+		for _, base := range smallFamily() {
+			if !simpleRing(base) {
+				continue
+			}
+			for rot := 0; rot < len(base); rot++ {
+				for c := 0; c < 4; c++ {
+					q := respell(base, spell{rev: c&1 == 1, rot: rot, closed: c&2 == 2})
+					g := G(geom.Polygon{q})
+					fmt.Fprintf(out, "cent g%s %s\n", lay(r), g)
+					if c&2 == 2 || r.Intn(4) == 0 {
+						fmt.Fprintf(out, "mcent g%s %s\n", lay(r), G(geom.MultiPolygon{{q}}))
+					}
+					if r.Intn(4) == 0 {
+						fmt.Fprintf(out, "area g%s %s\n", lay(r), g)
+					}
+				}
+			}
+		}
+	}
+
+	// ---- size thresholds: vertex counts and member counts around powers of two ----
+	// (integer coordinates: every sum is exact)
+	sizes := []int{63, 64, 65, 66, 127, 128, 129, 130, 255, 256, 257, 1023, 1024, 1025, 2047, 2048, 2049}
+	zig := func(n int) geom.LineString { // n points, segments of length 5 or 13 (3-4-5 / 5-12-13), never self-overlapping issues for Length/Distance
+		l := make(geom.LineString, n)
+		x, y := r.Range(-5, 5), r.Range(-5, 5)
+		for j := range l {
+			l[j] = pt(x, y)
+			if r.Bool() {
+				x += 3
+				y += 4 * (1 - 2*(j%2))
+			} else {
+				x += 5
+				y += 12 * (1 - 2*(j%2))
+			}
+		}
+		return l
+	}
+	// sawtooth ring with exactly n vertices: flat bottom, strictly x-monotone zigzag top (simple by construction)
+	saw := func(n int, ox, oy int) ring {
+		q := make(ring, 0, n)
+		q = append(q, pt(ox, oy), pt(ox+2*(n-2)+2, oy))
+		for k := 0; k < n-2; k++ {
+			q = append(q, pt(ox+2*(n-2)+1-2*k, oy+3+(k%2)*r.Range(1, 4)))
+		}
+		return q
+	}
+	for _, n := range sizes {
+		l := zig(n)
+		fmt.Fprintf(out, "len g%s %s\n", lay(r), G(l))
+		for _, qp := range []geom.Point{l[0], l[n/2], {X: l[n/2].X + 7, Y: l[n/2].Y - 11}, {X: l[n-1].X + 3, Y: l[n-1].Y + 1}, {X: l[n/2-1].X, Y: l[n/2-1].Y + 2}} {
+			fmt.Fprintf(out, "dist g%s %s %s %s\n", lay(r), vproto.F2H(qp.X), vproto.F2H(qp.Y), G(l))
+		}
+		// the long line as a member of a multi line string, and n short members
+		ml := geom.MultiLineString{zig(3), l, zig(2)}
+		fmt.Fprintf(out, "len g%s %s\ndist g%s %s %s %s\n", lay(r), G(ml), lay(r), vproto.F2H(l[n-2].X+1), vproto.F2H(l[n-2].Y), G(ml))
+		many := make(geom.MultiLineString, n)
+		for j := range many {
+			many[j] = geom.LineString{pt(3*j, j%7), pt(3*j+3, j%7+4)}
+		}
+		fmt.Fprintf(out, "len g%s %s\ndist g%s %s %s %s\n", lay(r), G(many), lay(r), vproto.F2H(float64(3*(n-1))+1), vproto.F2H(-2), G(many))
+		// rings and members: exact validity costs O(n^2) in the judge, so the quick tier takes 65 and 129 only and the thorough tier goes up to 1025 vertices / 257 members
+		polySize := n == 65 || n == 129 // quick tier
+		if tier == "thorough" {
+			polySize = n <= 1025
+		}
+		if polySize {
+			sp := spell{rev: r.Bool(), rot: r.Intn(n), closed: true}
+			q := respell(saw(n, r.Range(-9, 9), r.Range(-9, 9)), sp)
+			fmt.Fprintf(out, "area g%s %s\ncent g%s %s\nmcent g%s %s\n", lay(r), G(geom.Polygon{q}), lay(r), G(geom.Polygon{q}), lay(r), G(geom.MultiPolygon{{q}}))
+			q = respell(saw(n, 0, 0), spell{rev: r.Bool(), rot: r.Intn(n)})
+			fmt.Fprintf(out, "area g%s %s\n", lay(r), G(geom.Polygon{q}))
+		}
+		// member counts: n unit-ish squares as members of a multipolygon; n holes in one shell
+		if polySize && n <= 257 {
+			mp := make(geom.MultiPolygon, n)
+			holes := []ring{rect(-2, -2, 4*n+2, 6)}
+			for j := range mp {
+				sq := rect(4*j, 0, 4*j+2, 2+j%3)
+				mp[j] = geom.Polygon{respell(sq, spell{rev: r.Bool(), rot: r.Intn(4), closed: true})}
+				holes = append(holes, respell(sq, spell{rev: r.Bool(), rot: r.Intn(4), closed: true}))
+			}
+			fmt.Fprintf(out, "marea g%s %s\nmcent g%s %s\n", lay(r), G(mp), lay(r), G(mp))
+			if n <= 130 {
+				holes[0] = respell(holes[0], spell{closed: true})
+				fmt.Fprintf(out, "area g%s %s\ncent g%s %s\nmcent g%s %s\n", lay(r), G(toPoly(holes)), lay(r), G(toPoly(holes)), lay(r), G(geom.MultiPolygon{toPoly(holes)}))
+			}
 		}
 	}
 
